@@ -1231,6 +1231,8 @@ class CodeGenerator(NodeVisitor):
             )
             self.indent()
             self.buffer(loop_frame)
+            # The loop and its else branch are in a function of their own.
+            outer_loop_depth, self._loop_depth = self._loop_depth, 0
 
             # Use the same buffer for the else frame
             else_frame.buffer = loop_frame.buffer
@@ -1324,6 +1326,7 @@ class CodeGenerator(NodeVisitor):
         if node.recursive:
             self.return_buffer_contents(loop_frame)
             self.outdent()
+            self._loop_depth = outer_loop_depth
             self.start_write(frame, node)
             self.write(f"{self.choose_async('await ')}loop(")
             if self.environment.is_async:
